@@ -50,16 +50,27 @@ Proof. exact rebuild_walk. Qed.
    representation, getFirstChild / getNextSibling / getParentNode -- emits, for EVERY tree in that representation,
    exactly the recursive walk of it: start tag, the element's text, each child followed by its tail, end tag
    (ewalk_ref); from an element, and from a document or fragment root (whose own tags are suppressed) *)
-Theorem c11_etree_cursor_walk_element : forall e fuel, (2 * esize e <= fuel)%nat ->
+Theorem c11_etree_cursor_walk_element : forall e fuel, (esize e <= fuel)%nat ->
   ewalk fuel false e = Some (ewalk_ref e).
 Proof. exact ewalk_element. Qed.
-Theorem c11_etree_cursor_walk_document : forall ns name a t kids fuel, (2 * esize (EEl ns name a t kids) <= fuel)%nat ->
+Theorem c11_etree_cursor_walk_document : forall ns name a t kids fuel, (esize (EEl ns name a t kids) <= fuel)%nat ->
   ewalk fuel true (EEl ns name a t kids) = Some (text_tokens t ++ kids_ref kids).
 Proof. exact ewalk_document. Qed.
 
-(* PARTIAL: that the recursive walk of the .text/.tail representation of a tree equals the walk of the tree itself
-   with adjacent text joined ("ewalk_ref (toE t) = walk (coalesce t)") is compared on every generated tree (etree vs
-   DOM walker on the same document) but is not yet a theorem. *)
+(* ... and the .text/.tail representation of a tree walks like the tree: for EVERY tree in the form ElementTree can
+   hold (no empty text node, no two adjacent text nodes: norm_ok), the ElementTree walker on its representation, with
+   the fuel the entry points of the model supply, emits exactly the stream of the recursive walk of the tree -- which
+   is what the DOM walker emits (c11_nrw_element_correct / c11_nrw_document_correct).  Hence: the etree and DOM walkers
+   emit the same stream for the same document *)
+Theorem c11_etree_walker_is_the_tree_walk : forall n, not_text n = true -> norm_ok n = true ->
+  ewalk (4 * size n + 8) false (toE n) = Some (walk voidElements html_ns n).
+Proof. exact etree_walker_element_model_fuel. Qed.
+Theorem c11_etree_walker_is_the_document_walk : forall kids, adj_ok kids = true -> forallb norm_ok kids = true ->
+  ewalk (4 * fsize kids + 8) true (toE (Elem None [] [] kids)) = Some (walk_all voidElements html_ns kids).
+Proof. exact etree_walker_document_model_fuel. Qed.
+Theorem c11_etree_and_dom_walkers_agree : forall kids, adj_ok kids = true -> forallb norm_ok kids = true ->
+  ewalk (4 * fsize kids + 8) true (toE (Elem None [] [] kids)) = walk_doc_nrw (2 * fsize kids + 4) kids.
+Proof. exact etree_and_dom_walkers_agree. Qed.
 
 (* non-vacuity: <p>a <br><!--c-->b</p> walked from the element *)
 Example c11_example :
